@@ -30,7 +30,7 @@ func forksN() int {
 // TestC03Budget: one sync of the active replica set over a generated layout,
 // executed on several forks of the store (Go map order), judged by the budget monitor.
 func TestC03Budget(t *testing.T) {
-	rec := evid.New("TestC03Budget", "C03", "layout = 1-12 targeted nodes each in {no pod, up-to-date available/unavailable, outdated available/unavailable/terminating (Ready or not, inside the grace period), up-to-date terminating, stuck unscheduled >10min, terminating past grace, adopted old-DaemonSet pod available/unavailable, one or two pods in phase Failed (the second is kept by the failed-pod back-off)} x maxUnavailable x maxPodSchedulerFailure (int or percent), one active sync on several store forks; non-trivial = at least one outdated-available and one outdated-unavailable pod and fewer deletions allowed than candidates; distinct by layout+strategy rendering")
+	rec := evid.New("TestC03Budget", "C03", "layout = 1-12 targeted nodes each in {no pod, up-to-date available/unavailable, outdated available/unavailable/terminating (Ready or not, inside the grace period), up-to-date terminating, stuck unscheduled >10min, terminating past grace, adopted old-DaemonSet pod available/unavailable, one or two pods in phase Failed (the second is kept by the failed-pod back-off)}; the outdated template plain or with its own matchFields exclusion on the node name; both node-assignment modes x maxUnavailable x maxPodSchedulerFailure (int or percent), one active sync on several store forks; non-trivial = at least one outdated-available and one outdated-unavailable pod and fewer deletions allowed than candidates; distinct by layout+strategy rendering")
 	t.Cleanup(func() {
 		if !t.Failed() {
 			rec.Done()
@@ -38,7 +38,9 @@ func TestC03Budget(t *testing.T) {
 	})
 	on := mon.Of("budget", "no-panic")
 	rapid.Check(t, func(rt *rapid.T) {
-		c := sim.New(sim.Options{AffinityMode: true})
+		c := sim.New(sim.Options{AffinityMode: rapid.IntRange(0, 3).Draw(rt, "affinityMode") != 0})
+		// the outdated template is plain (A) or carries its own matchFields requirement on the node name (H)
+		old := rapid.SampledFrom([]byte{'A', 'A', 'H'}).Draw(rt, "oldTemplate")
 		n := rapid.IntRange(1, 12).Draw(rt, "nodes")
 		kinds := make([]string, n)
 		migration := false
@@ -56,7 +58,7 @@ func TestC03Budget(t *testing.T) {
 		if migration {
 			ann = map[string]string{oracle.AnnOldDaemonset: "old-ds"}
 		}
-		p := prepare(c, "ns1", "foo", st, ann, "AB")
+		p := prepare(c, "ns1", "foo", st, ann, string(old)+"B")
 		if migration {
 			p.addOldDaemonSet()
 		}
@@ -70,29 +72,29 @@ func TestC03Budget(t *testing.T) {
 			case "new-unavailable":
 				p.addPod(node, 'B', PSUnavailable, time.Minute)
 			case "old-available":
-				p.addPod(node, 'A', PSAvailable, 15*time.Minute)
+				p.addPod(node, old, PSAvailable, 15*time.Minute)
 				oldAvail++
 			case "old-unavailable":
-				p.addPod(node, 'A', PSUnavailable, 15*time.Minute)
+				p.addPod(node, old, PSUnavailable, 15*time.Minute)
 				oldUnavail++
 			case "old-terminating":
-				p.addPod(node, 'A', PSTerminating, 15*time.Minute)
+				p.addPod(node, old, PSTerminating, 15*time.Minute)
 			case "old-terminating-unready":
 				// deleted a few seconds ago, containers already stopped, still inside its grace period
-				p.addPod(node, 'A', PSTerminatingUnready, 15*time.Minute)
+				p.addPod(node, old, PSTerminatingUnready, 15*time.Minute)
 			case "new-terminating-unready":
 				p.addPod(node, 'B', PSTerminatingUnready, time.Minute)
 			case "old-stuck-unscheduled":
-				p.addPod(node, 'A', PSStuckUnscheduled, 15*time.Minute)
+				p.addPod(node, old, PSStuckUnscheduled, 15*time.Minute)
 			case "old-terminating-past-grace":
-				p.addPod(node, 'A', PSTerminatingPastGrace, 15*time.Minute)
+				p.addPod(node, old, PSTerminatingPastGrace, 15*time.Minute)
 			case "old-failed":
-				p.addPod(node, 'A', PSFailed, 15*time.Minute)
+				p.addPod(node, old, PSFailed, 15*time.Minute)
 			case "old-failed-x2":
 				// two failed (evicted) pods piled up on one node: the clean-up takes one, the failed-pod back-off
 				// keeps the other for now, so the rolling update sees an outdated pod in phase Failed
-				p.addPod(node, 'A', PSFailed, 15*time.Minute)
-				p.addPod(node, 'A', PSFailed, 14*time.Minute)
+				p.addPod(node, old, PSFailed, 15*time.Minute)
+				p.addPod(node, old, PSFailed, 14*time.Minute)
 				oldUnavail++
 			case "new-failed-x2":
 				p.addPod(node, 'B', PSFailed, 2*time.Minute)
@@ -111,7 +113,7 @@ func TestC03Budget(t *testing.T) {
 		}
 		maxU, _ := oracle.Resolve(st.RollingUpdate.MaxUnavailable, n)
 		nontrivial := oldAvail >= 1 && oldUnavail >= 1 && maxU < oldAvail+oldUnavail
-		layout := strings.Join(kinds, ",")
+		layout := "old=" + string(old) + ":" + strings.Join(kinds, ",")
 		var classes []string
 		if migration {
 			classes = append(classes, "migration")
